@@ -44,7 +44,7 @@ def r1_velocity_update(ctx):
     vs0 = [[1.0, -2.0], [0.5, 8.0]]
     xps = [[1.0, 3.0], [-1.0, 1.0]]
     xg = [2.0, 2.0]
-    for w, vmax, r, sizes in itertools.product((0.7, 1.5), (1.0, 100.0), (0.5, 0.0), ("ok", "vs-short", "xps-short")):
+    for w, vmax, r, sizes in itertools.product((0.7, 1.5, 0.0), (1.0, 100.0, 0.0), (0.5, 0.0), ("ok", "vs-short", "xps-short")):
         c1, c2 = 2.0, 1.5
         me = Sym("self", {fi["weight"]: 0.9, fi["c_1"]: c1, fi["c_2"]: c2, fi["v_max"]: vmax})
 
